@@ -187,7 +187,7 @@ theorem verifyHeader_ok (p : Params) (s : State) (hd : Header) (set set' : List 
     (∃ prev, headerByHash s hd.prev = some prev ∧ prev.height + 1 = hd.height ∧ prev.timestamp < hd.timestamp) ∧
     checkBookkeepers set hd.bookkeepers [] = true ∧
     (∃ mask, verifyMulti p hd.hash hd.bookkeepers (threshold p (headerHeight s.mem) set.length) hd.sigs = .ok mask) ∧
-    set' = (match hd.newCfg with | some c => dedupKeys c | none => set) := by
+    set' = (match hd.newCfg with | some c => dedupKeys c | none => set) ∧ hd.payloadOk = true := by
   unfold verifyHeader at h
   rw [if_neg h0] at h
   split at h
@@ -208,24 +208,31 @@ theorem verifyHeader_ok (p : Params) (s : State) (hd : Header) (set set' : List 
             split at h
             · cases h
             · rename_i mask hvm
-              refine ⟨⟨prev, hprev, by omega, by omega⟩, by simpa using hcb, ⟨mask, hvm⟩, ?_⟩
-              cases hc : hd.newCfg with
-              | none => rw [hc] at h; injection h with h; exact h.symm
-              | some c => rw [hc] at h; injection h with h; exact h.symm
+              split at h
+              · cases h
+              · rename_i hpl
+                refine ⟨⟨prev, hprev, by omega, by omega⟩, by simpa using hcb, ⟨mask, hvm⟩, ?_, by simpa using hpl⟩
+                cases hc : hd.newCfg with
+                | none => rw [hc] at h; injection h with h; exact h.symm
+                | some c => rw [hc] at h; injection h with h; exact h.symm
 
 theorem loadPeers_nodup (d : Durable) (m : Mem) (set : List Key) (hl : loadPeers d m = .ok set) : set.Nodup := by
   unfold loadPeers at hl
   split at hl
   · cases hl
   · split at hl
-    · injection hl with hl; subst hl; exact dedupKeys_nodup _
+    · cases hl
     · split at hl
-      · cases hl
+      · injection hl with hl; subst hl; exact dedupKeys_nodup _
       · split at hl
         · cases hl
         · split at hl
-          · injection hl with hl; subst hl; exact dedupKeys_nodup _
           · cases hl
+          · split at hl
+            · cases hl
+            · split at hl
+              · injection hl with hl; subst hl; exact dedupKeys_nodup _
+              · cases hl
 
 /-! ### completeness of the greedy matching -/
 
